@@ -29,6 +29,7 @@ type plan struct {
 	Assume     []string
 	NotDecided []string
 	Bounded    []string
+	Refines    [][2]string
 }
 
 func readPlan(path string) (*plan, error) {
@@ -77,6 +78,24 @@ func readPlan(path string) (*plan, error) {
 			}
 		case "lemma":
 			p.Lemmas = append(p.Lemmas, rest)
+		case "refine":
+			// refine <implementation method> <interface method key>
+			f := strings.Fields(rest)
+			if len(f) != 2 {
+				return nil, fmt.Errorf("%s: refine <impl> <iface>", path)
+			}
+			key := f[0]
+			if pkg != "" && !strings.Contains(key, "/") {
+				switch {
+				case strings.HasPrefix(key, "(*"):
+					key = "(*" + pkg + "." + key[2:]
+				case strings.HasPrefix(key, "("):
+					key = "(" + pkg + "." + key[1:]
+				default:
+					key = pkg + "." + key
+				}
+			}
+			p.Refines = append(p.Refines, [2]string{key, f[1]})
 		case "replay":
 			f := strings.Fields(rest)
 			if len(f) == 2 {
@@ -192,6 +211,13 @@ func checkCmd(args []string) {
 			continue
 		}
 		u.err = u.ex.VerifyLemma(lem, cp.Types)
+	}
+	for _, rf := range pl.Refines {
+		u := &unit{name: "refine:" + rf[0]}
+		units = append(units, u)
+		u.pos = rf[1]
+		u.ex = &vc.Exec{P: prog, Out: vc.NewScript()}
+		u.err = u.ex.VerifyRefinement(rf[0], rf[1])
 	}
 	// solve
 	{
